@@ -7,7 +7,8 @@ def _geo(idsz, cap, init, strlen=None):
 def _bfs(defs, depth):
     return [{"src": "checks/hx.cpp", "mode": "bfs", "defs": list(defs), "deps": ["checks/hx.hpp", "checks/hx_fault.hpp", "checks/hx_limits.hpp"],
              "fallback_defs": ["VERIF_NO_INSPECTOR"],
-             "args": ["--level=%d" % l, "--depth=%d" % depth, "--alphabet=reduced", "--cap=20000", "--no-alias"]} for l in range(1, depth + 1)]
+             "args": ["--level=%d" % l, "--depth=%d" % depth, "--alphabet=reduced", "--cap=20000", "--no-alias",
+                      "--tag=geo_" + "_".join(d.split("=")[-1] for d in defs)]} for l in range(1, depth + 1)]
 
 _PX = {"src": "checks/px.cpp", "mode": "px", "flavour": "fastclang", "deps": ["checks/px_unit.cpp"], "hang_s": 600}
 
